@@ -145,7 +145,7 @@ func hintLookup(c *Ctx, path string, kh uint64, key string) {
 	}
 }
 
-func hintMerge(c *Ctx, dir string, srcs [][]store.VerifHintItem, chunks []int) {
+func hintMerge(c *Ctx, dir string, srcs [][]store.VerifHintItem, chunks []int, forGC bool) {
 	var paths []string
 	var desc []string
 	for i, s := range srcs {
@@ -158,8 +158,12 @@ func hintMerge(c *Ctx, dir string, srcs [][]store.VerifHintItem, chunks []int) {
 	os.Remove(dst)
 	var coll []store.VerifHintItem
 	var err error
-	p := guard(func() { coll, err = store.VerifHintMerge(paths, chunks, dst) })
+	p := guard(func() { coll, err = store.VerifHintMergeMode(paths, chunks, dst, forGC) })
 	lhs := "hmerge " + strings.Join(desc, " ")
+	if forGC {
+		// the merge GC runs before a pass: no merged file is written, only the collisions are reported
+		lhs = "hmerge gc " + strings.Join(desc, " ")
+	}
 	if p != "" {
 		c.line("%s => PANIC", lhs)
 		return
@@ -168,10 +172,14 @@ func hintMerge(c *Ctx, dir string, srcs [][]store.VerifHintItem, chunks []int) {
 		c.line("%s => ERR", lhs)
 		return
 	}
-	got, ds, _, err := store.VerifHintReadAll(dst)
-	if err != nil {
-		c.line("%s => ERR-READ", lhs)
-		return
+	var got []store.VerifHintItem
+	var ds uint32
+	if !forGC {
+		got, ds, _, err = store.VerifHintReadAll(dst)
+		if err != nil {
+			c.line("%s => ERR-READ", lhs)
+			return
+		}
 	}
 	sort.Slice(coll, func(i, j int) bool {
 		if coll[i].Keyhash != coll[j].Keyhash {
@@ -179,7 +187,11 @@ func hintMerge(c *Ctx, dir string, srcs [][]store.VerifHintItem, chunks []int) {
 		}
 		return coll[i].Key < coll[j].Key
 	})
-	c.line("%s => ds=%d merged=%s coll=%s", lhs, ds, fmtItems(got), fmtItems(coll))
+	if forGC {
+		c.line("%s => coll=%s", lhs, fmtItems(coll))
+	} else {
+		c.line("%s => ds=%d merged=%s coll=%s", lhs, ds, fmtItems(got), fmtItems(coll))
+	}
 	for _, p := range paths {
 		os.Remove(p)
 	}
@@ -281,7 +293,11 @@ func engineHint(c *Ctx) {
 					chunks = append(chunks, s*2+r.Intn(2))
 				}
 			}
-			hintMerge(c, dir, srcs, chunks)
+			forGC := r.Chance(30)
+			if forGC {
+				c.count("merges-for-gc")
+			}
+			hintMerge(c, dir, srcs, chunks, forGC)
 			c.count("merges")
 		}
 		c.line("end")
@@ -317,13 +333,17 @@ func hintReplay(c *Ctx, dir, path string) {
 		case "hmerge":
 			var srcs [][]store.VerifHintItem
 			var chunks []int
+			forGC := len(l.args) > 0 && l.args[0] == "gc"
+			if forGC {
+				l.args = l.args[1:]
+			}
 			for _, a := range l.args {
 				kv := strings.SplitN(a, "=", 2)
 				ck, _ := strconv.Atoi(kv[0])
 				chunks = append(chunks, ck)
 				srcs = append(srcs, parseItems(kv[1]))
 			}
-			hintMerge(c, dir, srcs, chunks)
+			hintMerge(c, dir, srcs, chunks, forGC)
 		case "end":
 			c.line("end")
 		}
